@@ -125,4 +125,24 @@ theorem interruptedBy_eq_none (k : Kind) (jc : Bool) (env : Env) (status : Nat)
     · exact absurd h1 h
   · rfl
 
+theorem finishKind_halted (k : Kind) (out : Shell) (st : Nat) (intr : Option Nat) :
+    (finishKind k out st intr).halted
+      = if out.halted.isSome then out.halted
+        else match intr with
+          | some s => some s
+          | none => if st ≠ 0 ∧ out.env.options.contains "errexit" then some st else none := by
+  unfold finishKind
+  split
+  · rfl
+  · cases intr with
+    | some s => rfl
+    | none => simp only []; split <;> simp_all [exitShell]
+
+/-- what the task of a subshell of kind `k` is applied to -/
+theorem startKind_child {β : Type} (copied : List (String × String)) (k : Kind) (jc : Bool) (env : Env)
+    (task : Env → β) :
+    (startKind copied k jc env task).2 = task (entryEnv copied k jc env) := by
+  cases env
+  cases k <;> cases jc <;> rfl
+
 end YashModel.Fork
